@@ -1,21 +1,38 @@
 """C03 — Rank reduction yields a structurally full-rank matrix with unchanged span.
 
-Correspondence stream `structure` (engine `c02`, the same model as C02): random term sets over <= 4
-categorical factors (1-4 levels, every built-in contrast, one factor expression per variable) and
-<= 2 numeric factors, any subset lattice of interactions, random order (`_ordering="none"`),
-intercept on/off (at a random position), `cluster_by` both, on FULLY CROSSED data. Compared: for
-every term the emitted scoped terms with their reduced flags and scale, the column names, and the
-values of the first rows, against `model_spec.structure` / the real matrix.
-Thorough adds the exhaustive enumeration of all term sets over 3 factors in every order (<= 5
-terms; larger sets in canonical and reversed order).
+Correspondence streams (engine `c03`):
 
-Oracle (implementation only, numeric): on the fully crossed design (numeric variables crossed over
-two distinct primes each) rank(M_reduced) = ncols, rank([M_reduced | M_full]) = rank(M_full) =
-rank(M_reduced), with numpy.linalg.matrix_rank.
+* `crossed`   the model computes EVERYTHING from the design alone (`Model/Crossed.lean`): the rows of the fully
+              crossed frame, the evaluated factors (bare categorical / numeric columns, `C(col, contr.*)`, numeric
+              literals, a name bound to None) and BOTH encodings of every factor through the model of
+              `transforms/contrasts.py` (dummies, coding matrix, column names, spans_intercept, drop_field, formats),
+              then `Model.buildMatrix`. Compared: the parsed term list, `model_spec.structure` and the WHOLE matrix
+              (every row, exact rationals; contr.diff / contr.poly within 1e-9, poly columns up to the sqrt
+              normalisation the model reports). A malformed sub-stream (`badcontrast`) has a treatment base that is
+              not a level / poly scores of the wrong length: both sides must raise.
+* `structure` the same model as C02 (`Model/Materialize.lean`), encodings forwarded as data, first rows only.
+* `spanned`   `_get_scoped_terms_spanned_by_evaled_factors` called directly (constants anywhere, categoricals that
+              do not span the intercept, a factor listed twice).
+* `simplify`  `_simplify_scoped_terms` called directly on lists in which a term may hold the same factor both
+              reduced and full (`A-` and `A`: `ScopedFactor.__lt__` on equal factors) and a term may occur twice.
+* `algebra`   `==`, `<`, `hash`, `sorted`, `dict.fromkeys`, `in OrderedSet` of ScopedFactor / ScopedTerm objects,
+              foreign operands included (the `return NotImplemented` branches).
+
+Generator of `crossed` / `structure`: random term sets over <= 4 categorical factors (1-4 levels, every built-in
+contrast, one factor expression per variable) and <= 2 numeric factors, any subset lattice of interactions, random
+order (`_ordering="none"`), intercept on/off (at a random position), non-zero numeric literal scalings, a name bound to
+None inside terms or as a term of its own (`crossed` only), `cluster_by` both, on FULLY CROSSED data.
+Thorough adds the exhaustive enumeration of all term sets over 3 factors in every order (<= 5 terms; larger sets in
+canonical and reversed order).
+
+Oracle (implementation only, numeric): on the fully crossed design (numeric variables crossed over two distinct primes
+each) rank(M_reduced) = ncols, rank([M_reduced | M_full]) = rank(M_full) = rank(M_reduced), with
+numpy.linalg.matrix_rank; for the direct streams: `a == b` implies `hash(a) == hash(b)`, and `==` is symmetric.
 """
 from __future__ import annotations
 
 import itertools
+from fractions import Fraction
 
 import numpy
 import pandas
@@ -23,7 +40,7 @@ import pandas
 from harness.props import c02 as base
 
 PROPERTY = "C03"
-ENGINE = "c02"
+ENGINE = "c03"
 REQUIRED_THEOREMS = [
     "merge_preserves_comps",
     "simplify_preserves_comps",
@@ -34,31 +51,95 @@ REQUIRED_THEOREMS = [
     "full_coding_span_eq_one_sup_reduced",
     "scoped_term_span_eq_sum_of_components",
     "reduced_matrix_full_rank_same_span",
+    "matrix_columns_are_structure_columns",
+    "matrix_full_rank_same_span",
+    "any_invertible_coding_satisfies_hyp",
+    "builtin_contrast_independent",
+    "numeric_axis_independent",
+    "components_order_invariant",
+    "structure_span_order_invariant",
+    "matrix_span_order_invariant",
+    "valueless_factors_are_ignored",
+    "scoped_identity_is_structural",
+    "model_frame_fully_crossed",
+    "crossed_model_full_rank_same_span",
+    "certified_design_full_rank_same_span",
+    "contrast_formats_are_live",
 ]
 TRUSTED = base.TRUSTED + [
-    "the bridge from structure to linear algebra is proved in Lean/Mathlib on the model's emitted STRUCTURE "
-    "(reduced_matrix_full_rank_same_span: on a fully crossed design whose per-factor codings satisfy `Hyp` - [1 | reduced] "
-    "independent, full coding independent with span = span [1 | reduced], which C11's invertibility of [1 | coding] gives - "
-    "the structure columns of the reduced structure are linearly independent and span those of the unreduced one); the "
-    "identification of these abstract structure columns (functions on the level combinations) with the List-Rat Entry "
-    "columns of buildMatrix is NOT a Lean theorem (C02's column_is_product is its pointwise form); the numeric rank "
-    "oracle (numpy.linalg.matrix_rank) checks the conclusion on the real matrices",
+    "stream `crossed`: NOTHING about the factors is forwarded from the implementation - the model (Model/Crossed.lean) computes "
+    "the frame, the evaluated factors and both encodings of every factor from the design description (level lists, contrast "
+    "names, numeric values), through the model of transforms/contrasts.py that C11 proves things about, and the whole matrix "
+    "is compared; what is still a parameter there: the parser (the written term list is compared with the parsed one), "
+    "pandas' category inference (sorted distinct values; Model.Contrasts.inferLevels), str(label), the sqrt normalisation "
+    "of contr.poly columns (the model reports the norms, the comparison divides) and float rounding of contr.diff entries (1e-9)",
+    "the property is a theorem about the matrix the model EMITS, down to its List-Rat columns: in general form "
+    "(matrix_columns_are_structure_columns, matrix_full_rank_same_span: any factor cache that holds a fully crossed design "
+    "- `CrossedDesign`: every encoded column is a function of the level of its own variable, every combination of levels "
+    "occurs in some row - with per-factor codings satisfying `Hyp`, no printed-name collisions) and for the crossed-design "
+    "model (crossed_model_full_rank_same_span: EVERY well-formed design description, every built-in contrast - the cache the "
+    "model computes is proved to be a CrossedDesign satisfying Hyp, model_cache_is_crossed in Proofs/C03CrossedMain.lean, "
+    "through C11's invertibility of [1 | coding]). All hypotheses are decidable; `Spec.C03Check.certified` evaluates them "
+    "and the engine reports the verdict for EVERY `crossed` case (certified_design_full_rank_same_span): the correspondence "
+    "fails if a case in which no two columns can print to the same name is not "
+    "certified. The numeric rank oracle (numpy.linalg.matrix_rank) checks the same conclusion on the real matrices",
+    "stream `algebra`: comparisons AMONG foreign objects are not formulaic's and are kept out of the generator; `hash` "
+    "itself is a parameter (the model states what it is a function of)",
 ]
 ASSUMPTIONS = [
     "each data variable is encoded by a single factor expression (as the property states); literal scales are non-zero",
+    "matrix theorems: printed column names do not collide (noCollision); when they do, Python's dictionaries drop columns "
+    "- known finding C03-F1 (narwhals name-keyed assembly) is reported on every run, never silently accepted",
     "numeric oracle: floating-point rank decisions of numpy.linalg.matrix_rank on well-scaled designs (entries |v| <= 21 "
     "before interaction) are taken as exact",
 ]
 RULE = (
-    "random term sets (1-7 terms, each a subset of <= 4 categorical + <= 2 numeric variables, degree <= 4), random order, "
-    "intercept on/off at a random position, cluster_by both, outputs pandas/numpy/sparse; levels 1-4 per categorical "
-    "(labels: strings, integers from 0 or 1, booleans, strings with '' first; pandas.Categorical or plain object column) with a "
-    "random built-in contrast (treatment default, C(), treatment, SAS, sum, helmert, diff, poly); fully crossed data; "
-    "thorough: + exhaustive term sets over 3 factors x all orders of <= 5 terms; non-trivial = some term of degree >= 2"
+    "fixed table (every seed, ~110 cases): numeric columns NAMED like the printed form of another factor's internal state "
+    "(`A-`, `A:B`, `A-:B-`, `A[T.b]`, `A[a]`, `A B`, `A_B`, `Intercept`, `C(B)-`, `A[S.a]`) next to that factor, both orders, "
+    "x 5 materializer/output pairs. Random (2/3 `crossed`, 1/3 `structure`): 1-7 terms, each a subset of <= 4 categorical + "
+    "<= 2 numeric variables, degree <= 4, random order, intercept on/off at a random position, cluster_by both, outputs "
+    "pandas/numpy/sparse, materializer pandas/narwhals; levels 1-4 per categorical (labels: strings, integers from 0 or 1, "
+    "booleans, strings with '' first, 4%: strings beginning with `__`; pandas.Categorical or plain object column) with a "
+    "random built-in contrast (treatment default, C(), treatment, SAS, sum, helmert, diff, poly); ~10% of the cases name their "
+    "numeric columns from the collision pool; `crossed` adds non-zero literal scalings (20% of terms) and a name bound to "
+    "None inside terms / as a term (20% of cases); fully crossed data. badcontrast: >= 6 cases with a treatment/SAS base that "
+    "is no level or poly scores of the wrong length. quick: + 300 of the exhaustive term sets over 3 factors x all orders of "
+    "<= 5 terms (thorough: 9000). direct: n/6 spanned (constants, non-spanning categoricals, repeated factor), n/4 simplify "
+    "(a factor both reduced and full in one term, repeated terms, names `A-`, `A:B`), n/4 algebra (==, <, hash, sorted, "
+    "dict.fromkeys, membership; one foreign operand at most). non-trivial = crossed/structure case with a term of >= 2 data factors"
 )
 
 CONTR = [None, None, "C", "treatment", "SAS", "sum", "helmert", "diff", "poly"]
 POOL = ["a", "b", "c", "d"]
+LITS = ["2", "3", "0.5", "4", "2.5"]
+NULL = "z"  # a name bound to None in the evaluation context
+INEXACT_CONTR = ("diff", "poly")
+
+
+def quote(name):
+    """a data column name as written in a formula (back-quoted unless it is a plain identifier); the factor's
+    expression is the bare name"""
+    return name if name.isidentifier() else f"`{name}`"
+
+
+PREFIX = {None: "T.", "C": "T.", "treatment": "T.", "SAS": "T.", "sum": "S.", "helmert": "H.", "diff": "D.", "poly": ""}
+
+
+def collision_names(cats):
+    """numeric column NAMES whose text equals the printed form of another factor in one of its internal states: a
+    reduced scoped factor prints as `A-`, an interaction as `A:B`, encoded columns as `A[T.b]` / `A[b]`, ..."""
+    out = []
+    names = [c[0] for c in cats]
+    for c in cats:
+        v, lv = c[0], [str(x) for x in cat_levels(c)]
+        out += [f"{v}-", f"{v}[{lv[0]}]", f"{v}[{PREFIX.get(c[2], 'T.')}{lv[-1]}]", f"{v}[T.{lv[0]}]", f"C({v})-", f"{atom(v, c[2])}-"]
+        if c[2] == "poly":
+            out.append(f"{atom(v, c[2])}[.L]")
+        for w in names + ["x"]:
+            if w != v:
+                out += [f"{v}:{w}", f"{v} {w}", f"{v}_{w}", f"{v}-:{w}-", f"{v}-:{w}"]
+    out += ["Intercept"]
+    return sorted(set(out) - set(names))
 
 
 def atom(v, contr):
@@ -77,7 +158,13 @@ POOLS = {
     "int1": [1, 2, 3, 4],
     "bool": [False, True],
     "empty": ["", "x", "y", "z"],
+    # string labels that begin with two underscores: ordinary level labels (before the repair "a category level whose name
+    # starts with `__` keeps its indicator column" `_flatten_encoded_evaled_factor` took them for hidden metadata keys and
+    # dropped the level's column - former finding C03-F2)
+    "dunder": ["__a", "__b", "c", "d"],
+    "dunder2": ["c", "__a", "d", "__b"],  # not in sorted order: always a declared Categorical
 }
+NUMVALS = [(2, 3), (5, 7)]
 
 
 def cat_levels(cat):
@@ -87,7 +174,7 @@ def cat_levels(cat):
 
 
 def crossed_frame(cats, nums):
-    axes = [cat_levels(c) for c in cats] + [list(p) for p in [(2, 3), (5, 7)][: len(nums)]]
+    axes = [cat_levels(c) for c in cats] + [list(p) for p in NUMVALS[: len(nums)]]
     rows = list(itertools.product(*axes))
     cols = {}
     for i, c in enumerate(cats):
@@ -103,11 +190,13 @@ def crossed_frame(cats, nums):
 
 def gen_cat(rng, v):
     pool = rng.choice(["str", "str", "int0", "int0", "bool", "empty", "int1"])
+    if rng.random() < 0.04:
+        pool = rng.choice(["dunder", "dunder2"])
     k = min(rng.choice([1, 2, 2, 3, 3, 4]), len(POOLS[pool]))
-    return [v, k, rng.choice(CONTR), pool, rng.random() < 0.7]
+    return [v, k, rng.choice(CONTR), pool, rng.random() < 0.7 or pool == "dunder2"]
 
 
-def gen_case(rng, small=False):
+def gen_case(rng, small=False, kind="structure", collide=False):
     ncat = rng.randint(1, 3 if small else 4)
     nnum = rng.randint(0, 2)
     cats = [gen_cat(rng, v) for v in ["A", "B", "G", "H"][:ncat]]
@@ -115,6 +204,10 @@ def gen_case(rng, small=False):
         c = cats[rng.randrange(ncat)]
         c[1] = min(c[1], 2)
     nums = ["x", "y"][:nnum]
+    if collide or rng.random() < 0.1:
+        # ~10%: numeric columns NAMED like the printed form of another factor's internal state
+        pool = collision_names(cats)
+        nums = rng.sample(pool, min(len(pool), max(1, nnum)))
     variables = [c[0] for c in cats] + nums
     nterms = rng.randint(1, 7)
     terms, seen = [], set()
@@ -133,11 +226,25 @@ def gen_case(rng, small=False):
                     seen.add(frozenset(sub))
                     terms.append(list(sub))
         rng.shuffle(terms)
+    if kind == "crossed":
+        # non-zero numeric literal scalings (at most two per term, anywhere among the factors)
+        for t in terms:
+            if rng.random() < 0.2:
+                for lit in rng.sample(LITS, rng.choice([1, 1, 2])):
+                    t.insert(rng.randrange(len(t) + 1), lit)
+        # a name bound to None: a factor without values (skipped by _get_scoped_terms), inside terms / on its own
+        if rng.random() < 0.2:
+            for t in terms:
+                if rng.random() < 0.4 and frozenset(t) | {NULL} not in seen:
+                    seen.add(frozenset(t) | {NULL})
+                    t.insert(rng.randrange(len(t) + 1), NULL)
+            if rng.random() < 0.5:
+                terms.insert(rng.randrange(len(terms) + 1), [NULL])
     icpt = rng.random() < 0.6
     if icpt:
         terms.insert(rng.randrange(len(terms) + 1) if rng.random() < 0.4 else 0, [])
     return dict(
-        kind="structure",
+        kind=kind,
         cats=cats,
         nums=nums,
         terms=terms,
@@ -145,6 +252,20 @@ def gen_case(rng, small=False):
         output=rng.choice(["pandas", "numpy", "sparse"]),
         mat=rng.choice(["pandas", "pandas", "pandas", "narwhals"]),
     )
+
+
+def gen_badcontrast(rng):
+    """malformed: the contrast of one C(...) factor cannot be built for the levels of its column"""
+    c = gen_case(rng, small=True, kind="crossed")
+    c["kind"] = "badcontrast"
+    cat = c["cats"][0]
+    cat[1] = max(cat[1], 2)
+    cat[2] = rng.choice(["treatment(base='nosuch')", "SAS(base='nosuch')", "poly(scores=[1, 2, 3, 4, 5, 6])"])
+    if rng.random() < 0.8:  # intercept first, then the main effect: the reduced encoding is needed
+        c["terms"] = [[], [cat[0]]] + [t for t in c["terms"] if t and {a for a in t if a not in LITS} != {cat[0]}]
+    elif not any(cat[0] in t for t in c["terms"]):
+        c["terms"].append([cat[0]])
+    return c
 
 
 def exhaustive(rng, budget):
@@ -163,38 +284,178 @@ def exhaustive(rng, budget):
                 else:
                     orders = [subset, tuple(reversed(subset))]
                 for o in orders:
-                    out.append(dict(kind="structure", cats=cats, nums=nums, terms=[list(t) for t in o], cluster=False,
+                    out.append(dict(kind="crossed", cats=cats, nums=nums, terms=[list(t) for t in o], cluster=False,
                                     output="numpy", mat="pandas"))
     rng.shuffle(out)
     return out[:budget]
 
 
+def fixed_table():
+    """column names that collide with the printed form of another factor's internal state, in both orders (run on
+    every seed and tier): `A-` next to A, `A:B` next to A:B, `A[T.b]` / `A[b]` next to A, `A B`, `A_B`, `Intercept`"""
+    cats = [["A", 3, None, "str", True], ["B", 2, None, "str", True]]
+    catsC = [["A", 3, "sum", "str", True], ["B", 2, "C", "str", False]]
+    table = [
+        (["A-"], [["A-"], ["A"]]),
+        (["A-"], [["A"], ["A-"]]),
+        (["A-"], [[], ["A-"], ["A"]]),
+        (["A-"], [[], ["A"], ["A-"]]),
+        (["A-"], [[], ["B"], ["A-"], ["A"], ["A", "B"]]),
+        (["A-"], [[], ["A", "A-"], ["A"]]),
+        (["A-", "B-"], [["A-", "B-"], ["A", "B"], ["A-"], ["B"]]),
+        (["A:B"], [[], ["A"], ["B"], ["A:B"], ["A", "B"]]),
+        (["A:B"], [[], ["A:B"], ["A", "B"], ["A"], ["B"]]),
+        (["A-:B-"], [["A-:B-"], ["A", "B"]]),
+        (["A-:B"], [[], ["A", "B"], ["A-:B"], ["B"]]),
+        (["A[T.b]"], [[], ["A[T.b]"], ["A"]]),
+        (["A[T.b]"], [[], ["A"], ["A[T.b]"]]),
+        (["A[a]"], [["A[a]"], ["A"]]),
+        (["A[a]"], [["A"], ["A[a]"]]),
+        (["A B"], [[], ["A"], ["A B"], ["A", "B"]]),
+        (["A_B"], [[], ["A_B"], ["A", "B"], ["A"]]),
+        (["Intercept"], [[], ["Intercept"], ["A"]]),
+        (["Intercept"], [["Intercept"], ["A"], []]),
+    ]
+    tableC = [
+        (["C(A, contr.sum)-"], [[], ["C(A, contr.sum)-"], ["A"], ["B"]]),
+        (["C(B)-"], [[], ["B"], ["C(B)-"], ["A", "B"]]),
+        (["A[S.a]"], [[], ["A"], ["A[S.a]"]]),
+    ]
+    out = []
+    combos = [("pandas", "pandas"), ("pandas", "numpy"), ("narwhals", "numpy"), ("narwhals", "sparse"), ("narwhals", "pandas")]
+    for cs, tab in ((cats, table), (catsC, tableC)):
+        for i, (nums, terms) in enumerate(tab):
+            for j, (mat, output) in enumerate(combos):
+                out.append(dict(kind="crossed" if (i + j) % 4 else "structure", cats=cs, nums=nums,
+                                terms=[list(t) for t in terms], cluster=False, output=output, mat=mat))
+    return out
+
+
+# ----------------------------------------------------------------------------- direct streams
+
+# factor expressions of the direct streams: `A-` (a column NAMED like the printed form of the reduced factor A) and
+# `A:B` are factors of their own; identity of scoped factors is (factor, reduced flag), never the printed form
+NAMES = ["A", "B", "A-", "C", "A:B", "D"]
+
+
+def gen_spanned(rng):
+    """evaluated factors for a direct call of _get_scoped_terms_spanned_by_evaled_factors"""
+    n = rng.randint(0, 5)
+    fs = []
+    for _ in range(n):
+        r = rng.random()
+        if r < 0.2:
+            fs.append(dict(expr=rng.choice(["2", "3", "0.5", "0"]), kind="constant"))
+        elif r < 0.4:
+            fs.append(dict(expr=rng.choice(["x", "y"]), kind="numerical", spans=False))
+        else:
+            # categorical; `spans_intercept=False` is what C(..., spans_intercept=False) produces
+            fs.append(dict(expr=rng.choice(NAMES), kind="categorical", spans=rng.random() < 0.8))
+    # the same expression always carries the same metadata (it is ONE cache entry)
+    first = {}
+    fs = [first.setdefault(f["expr"], f) for f in fs]
+    return dict(kind="spanned", factors=fs)
+
+
+def gen_st(rng, names, dup=True):
+    k = rng.randint(0, len(names))
+    fs = [[e, rng.random() < 0.6] for e in rng.sample(names, k)]
+    if dup and fs and rng.random() < 0.25:
+        e, r = rng.choice(fs)
+        fs.insert(rng.randrange(len(fs) + 1), [e, (not r) if rng.random() < 0.7 else r])
+    return {"factors": fs, "scale": rng.choice(["1", "1", "2", "0"])}
+
+
+def gen_simplify(rng):
+    names = rng.sample(NAMES, rng.randint(1, 4))
+    sts = [gen_st(rng, names) for _ in range(rng.randint(0, 7))]
+    if sts and rng.random() < 0.2:
+        sts.insert(rng.randrange(len(sts) + 1), dict(rng.choice(sts)))
+    return dict(kind="simplify", sts=sts)
+
+
+def gen_obj(rng, names):
+    r = rng.random()
+    if r < 0.45:
+        return {"t": "sf", "expr": rng.choice(names), "reduced": rng.random() < 0.5}
+    if r < 0.85:
+        return dict(gen_st(rng, names), t="st")
+    return {"t": "other", "v": rng.choice([1, "A", None, 2.5])}
+
+
+def gen_algebra(rng):
+    names = rng.sample(NAMES, rng.randint(1, 3))
+    a = gen_obj(rng, names)
+    b = gen_obj(rng, names)
+    if rng.random() < 0.3 and a["t"] == "st":  # a permutation of the same factors: equal terms
+        fs = list(a["factors"])
+        rng.shuffle(fs)
+        b = {"t": "st", "factors": fs, "scale": rng.choice(["1", "3"])}
+    if a["t"] == "other" and b["t"] == "other":  # comparisons among foreign objects are not formulaic's
+        b = {"t": "sf", "expr": rng.choice(names), "reduced": rng.random() < 0.5}
+    xs = [gen_obj(rng, names) for _ in range(rng.randint(0, 4))]
+    others = [x for x in xs if x["t"] == "other"]
+    xs = [x for x in xs if x["t"] != "other"] + others[:1]
+    rng.shuffle(xs)
+    if rng.random() < 0.6:
+        xs = [x for x in xs if x["t"] == "sf"] + [{"t": "sf", "expr": rng.choice(names), "reduced": rng.random() < 0.5}]
+        rng.shuffle(xs)
+    fs = [[rng.choice(names), rng.random() < 0.5] for _ in range(rng.randint(0, 5))]
+    st_set = [gen_st(rng, names) for _ in range(rng.randint(0, 4))]
+    x = gen_st(rng, names)
+    if st_set and rng.random() < 0.4:
+        y = rng.choice(st_set)
+        fs2 = list(y["factors"])
+        rng.shuffle(fs2)
+        x = {"factors": fs2, "scale": "5"}
+    return dict(kind="algebra", a=a, b=b, xs=xs, fs=fs, set=st_set, x=x)
+
+
 def cases(rng, tier):
     n = {"quick": 600, "thorough": 3000, "search": 150}[tier]
-    for _ in range(n):
-        yield gen_case(rng, small=(tier != "thorough"))
+    yield from fixed_table()
+    for i in range(n):
+        yield gen_case(rng, small=(tier != "thorough"), kind="structure" if i % 3 == 0 else "crossed")
+    for i in range(max(6, n // 40)):
+        yield gen_badcontrast(rng)
     if tier == "thorough":
         yield from exhaustive(rng, 9000)
     elif tier == "quick":
         yield from exhaustive(rng, 300)
+    for i in range(n // 6):
+        yield gen_spanned(rng)
+    for i in range(n // 4):
+        yield gen_simplify(rng)
+    for i in range(n // 4):
+        yield gen_algebra(rng)
+
+
+def atom_of(c, a, written=False):
+    """the factor expression of an atom (`written`: as it is spelled in the formula)"""
+    contr = {x[0]: x[2] for x in c["cats"]}
+    if a in contr:
+        return atom(a, contr[a])
+    return quote(a) if (written and a in c["nums"]) else a
 
 
 def formula_of(c):
-    contr = {x[0]: x[2] for x in c["cats"]}
     parts = []
     for t in c["terms"]:
-        parts.append("1" if not t else ":".join(atom(v, contr[v]) if v in contr else v for v in t))
-    has_icpt = any(not t for t in c["terms"])
+        parts.append("1" if not t else ":".join(atom_of(c, v, written=True) for v in t))
     return "0 + " + " + ".join(parts) if parts else "0"
 
 
 def describe(c):
+    k = c["kind"]
+    if k not in ("structure", "crossed", "badcontrast"):
+        return k
     pools = "+".join(sorted({x[3] if len(x) > 3 else "str" for x in c["cats"]}))
-    return f"cats={len(c['cats'])},nums={len(c['nums'])},terms={len(c['terms'])},labels={pools}"
+    extra = ("+null" if any(NULL in t for t in c["terms"]) else "") + ("+lit" if any(a in LITS for t in c["terms"] for a in t) else "")
+    return f"{k}{extra}:cats={len(c['cats'])},nums={len(c['nums'])},terms={len(c['terms'])},labels={pools}"
 
 
 def nontrivial(c):
-    return any(len(t) >= 2 for t in c["terms"])
+    return c["kind"] in ("structure", "crossed") and any(len([a for a in t if a not in LITS and a != NULL]) >= 2 for t in c["terms"])
 
 
 def _mat(c, df, efr):
@@ -202,7 +463,7 @@ def _mat(c, df, efr):
     from formulaic.materializers import NarwhalsMaterializer, PandasMaterializer
 
     cls = PandasMaterializer if c["mat"] == "pandas" else NarwhalsMaterializer
-    m = cls(df)
+    m = cls(df, context={NULL: None})
     f = Formula(formula_of(c), _ordering="none")
     mm = m.get_model_matrix(f, ensure_full_rank=efr, output=c["output"],
                             cluster_by="numerical_factors" if c["cluster"] else "none")
@@ -214,25 +475,29 @@ def _array(mm):
     return numpy.asarray(a).astype(float)
 
 
-KEEP = 2  # rows forwarded to the model (the structure does not depend on the rows)
+KEEP = 2  # rows forwarded to the model in the `structure` stream (the structure does not depend on the rows)
 
 
-def impl(c):
+def _ranks(o, mm, mm2):
+    R, F = _array(mm), _array(mm2)
+    o["ncols"] = [int(R.shape[1]), int(F.shape[1])]
+    rk = numpy.linalg.matrix_rank
+    o["rank_reduced"] = int(rk(R)) if R.size else 0
+    o["rank_full"] = int(rk(F)) if F.size else 0
+    o["rank_joint"] = int(rk(numpy.hstack([R, F]))) if (R.size or F.size) else 0
+
+
+def impl_structure(c):
     df, nrows = crossed_frame(c["cats"], c["nums"])
     try:
         m, mm = _mat(c, df, True)
         m2, mm2 = _mat(c, df, False)
     except Exception as e:
         return {"error": type(e).__name__, "msg": str(e)[:200]}
-    cc = dict(c, data={"nrows": nrows})
     o = base.observe(m, mm, c["output"], nrows, collapse=base.as_dict(c))
-    R, F = _array(mm), _array(mm2)
     o["nrows"] = nrows
-    o["ncols"] = [int(R.shape[1]), int(F.shape[1])]
-    rk = numpy.linalg.matrix_rank
-    o["rank_reduced"] = int(rk(R)) if R.size else 0
-    o["rank_full"] = int(rk(F)) if F.size else 0
-    o["rank_joint"] = int(rk(numpy.hstack([R, F]))) if (R.size or F.size) else 0
+    _ranks(o, mm, mm2)
+    _label_collapse(c, o, mm, mm2, df)
     # keep the observables small: first rows only
     for e in o["columns"]:
         e["values"] = e["values"][:KEEP]
@@ -243,27 +508,429 @@ def impl(c):
     return o
 
 
+def observe_crossed(mm, output, nrows, collapse):
+    """terms, structure, names and ALL values of one materialisation (no factor encodings: the model computes them)"""
+    spec = mm.model_spec
+    out = {}
+    out["terms"] = [[f.expr for f in t.factors] for t in spec.formula]
+    out["structure"] = [
+        {
+            "term": [f.expr for f in s.term.factors],
+            "scoped": [
+                {"factors": [[sf.factor.expr, bool(sf.reduced)] for sf in st.factors], "scale": base.fstr(st.scale)}
+                for st in s.scoped_terms
+            ],
+            "columns": [str(x) for x in s.columns],
+        }
+        for s in spec.structure
+    ]
+    if output == "pandas":
+        names = [str(x) for x in mm.columns]
+        arr = numpy.asarray(mm).astype(float).reshape((len(mm), len(names)))
+    else:
+        names = [str(x) for x in spec.column_names]
+        if collapse:
+            names = list(dict.fromkeys(names))
+        arr = _array(mm)
+    if arr.ndim != 2 or arr.shape[1] != len(names) or arr.shape[0] != nrows:
+        out["shape_mismatch"] = f"{arr.shape} vs {len(names)} names, {nrows} rows"
+        out["columns"] = []
+    else:
+        out["columns"] = [{"name": n, "values": [base.fstr(x) for x in arr[:, j]]} for j, n in enumerate(names)]
+    return out
+
+
+def _label_collapse(c, o, mm, mm2, df):
+    """name-keyed assembly (finding C03-F1): which labels repeat, and the ranks of the same matrices assembled by
+    position (sparse output of the same materializer)"""
+    if not base.as_dict(c):
+        return
+    names = [str(x) for x in mm.model_spec.column_names]
+    names2 = [str(x) for x in mm2.model_spec.column_names]
+    o["repeated_labels"] = sorted({x for x in names if names.count(x) > 1} | {x for x in names2 if names2.count(x) > 1})
+    if o["repeated_labels"]:
+        cc = dict(c, output="sparse")
+        alt = {}
+        _ranks(alt, _mat(cc, df, True)[1], _mat(cc, df, False)[1])
+        o["stacked"] = alt
+
+
+def impl_crossed(c):
+    df, nrows = crossed_frame(c["cats"], c["nums"])
+    try:
+        m, mm = _mat(c, df, True)
+        m2, mm2 = _mat(c, df, False)
+    except Exception as e:
+        return {"error": type(e).__name__, "msg": str(e)[:200]}
+    o = observe_crossed(mm, c["output"], nrows, base.as_dict(c))
+    o["nrows"] = nrows
+    _ranks(o, mm, mm2)
+    _label_collapse(c, o, mm, mm2, df)
+    return o
+
+
+def _evaled(f):
+    from formulaic.materializers.types import EvaluatedFactor, FactorValues
+    from formulaic.parser.types import Factor
+
+    if f["kind"] == "constant":
+        return EvaluatedFactor(Factor(f["expr"], eval_method="literal"), FactorValues(float(Fraction(f["expr"])), kind="constant"))
+    return EvaluatedFactor(Factor(f["expr"]), FactorValues([1], kind=f["kind"], spans_intercept=f["spans"]))
+
+
+def _st_json(st):
+    return {"factors": [[sf.factor.expr, bool(sf.reduced)] for sf in st.factors], "scale": base.fstr(st.scale)}
+
+
+def impl_spanned(c):
+    from formulaic.materializers import FormulaMaterializer
+
+    cache = {}
+    efs = [cache.setdefault(f["expr"], _evaled(f)) for f in c["factors"]]
+    try:
+        out = FormulaMaterializer._get_scoped_terms_spanned_by_evaled_factors(efs)
+    except Exception as e:
+        return {"error": type(e).__name__}
+    out = list(out)
+    return {"sts": [_st_json(st) for st in out], "hash_ok": _hash_consistent(out)}
+
+
+def _hash_consistent(objs):
+    """`a == b` implies `hash(a) == hash(b)`, and `==` is symmetric, over all pairs"""
+    for a in objs:
+        for b in objs:
+            try:
+                if (a == b) != (b == a):
+                    return f"== is not symmetric on {a!r}, {b!r}"
+                if a == b and hash(a) != hash(b):
+                    return f"{a!r} == {b!r} but their hashes differ"
+            except TypeError:
+                pass
+    return None
+
+
+class _Build:
+    def __init__(self):
+        self.efs = {}
+
+    def ef(self, e):
+        from formulaic.materializers.types import EvaluatedFactor, FactorValues
+        from formulaic.parser.types import Factor
+
+        if e not in self.efs:
+            self.efs[e] = EvaluatedFactor(Factor(e), FactorValues([1], kind="categorical", spans_intercept=True))
+        return self.efs[e]
+
+    def sf(self, e, r):
+        from formulaic.materializers.types import ScopedFactor
+
+        return ScopedFactor(self.ef(e), reduced=r)
+
+    def st(self, j):
+        from formulaic.materializers.types import ScopedTerm
+
+        return ScopedTerm([self.sf(e, r) for e, r in j["factors"]], scale=base.ffloat(j["scale"]))
+
+    def obj(self, j):
+        if j["t"] == "sf":
+            return self.sf(j["expr"], j["reduced"])
+        if j["t"] == "st":
+            return self.st(j)
+        return j["v"]
+
+
+def impl_simplify(c):
+    from formulaic.materializers import FormulaMaterializer
+
+    b = _Build()
+    sts = [b.st(j) for j in c["sts"]]
+    try:
+        out = list(FormulaMaterializer._simplify_scoped_terms(sts))
+    except Exception as e:
+        return {"error": type(e).__name__}
+    return {"sts": [_st_json(st) for st in out], "hash_ok": _hash_consistent(sts + out)}
+
+
+def _obj_json(x):
+    from formulaic.materializers.types import ScopedFactor, ScopedTerm
+
+    if isinstance(x, ScopedFactor):
+        return {"t": "sf", "expr": x.factor.expr, "reduced": bool(x.reduced)}
+    if isinstance(x, ScopedTerm):
+        return {"t": "st", "st": _st_json(x)}
+    return {"t": "other"}
+
+
+def impl_algebra(c):
+    from formulaic.parser.types.ordered_set import OrderedSet
+
+    bd = _Build()
+    a, b = bd.obj(c["a"]), bd.obj(c["b"])
+    o = {}
+    o["eq"] = bool(a == b)
+    o["eq_sym"] = bool(b == a)
+    try:
+        o["lt"] = bool(a < b)
+    except TypeError:
+        o["lt"] = {"error": "TypeError"}
+    try:
+        o["gt"] = bool(b < a)
+    except TypeError:
+        o["gt"] = {"error": "TypeError"}
+    try:
+        o["samehash"] = hash(a) == hash(b)
+    except TypeError:
+        o["samehash"] = None
+    xs = [bd.obj(x) for x in c["xs"]]
+    try:
+        o["sorted"] = [_obj_json(x) for x in sorted(xs)]
+    except TypeError:
+        o["sorted"] = {"error": "TypeError"}
+    o["dedup"] = [[sf.factor.expr, bool(sf.reduced)] for sf in dict.fromkeys(bd.sf(e, r) for e, r in c["fs"])]
+    sts = [bd.st(j) for j in c["set"]]
+    x = bd.st(c["x"])
+    o["member"] = x in OrderedSet(sts)
+    o["member_set"] = x in set(sts)
+    o["hash_ok"] = _hash_consistent([a, b] + xs + sts + [x])
+    return o
+
+
+def impl(c):
+    k = c["kind"]
+    if k == "structure":
+        return impl_structure(c)
+    if k in ("crossed", "badcontrast"):
+        return impl_crossed(c)
+    if k == "spanned":
+        return impl_spanned(c)
+    if k == "simplify":
+        return impl_simplify(c)
+    if k == "algebra":
+        return impl_algebra(c)
+    raise ValueError(k)
+
+
+# ----------------------------------------------------------------------------- requests
+
+
+def label_json(v):
+    if isinstance(v, bool):
+        return {"s": str(v)}  # str(True) is what every printed name shows; booleans sort False < True as their names do
+    if isinstance(v, int):
+        return {"i": v}
+    return {"s": str(v)}
+
+
+def contrast_json(contr):
+    if contr in ("C", "treatment"):
+        return {"k": "treatment", "base": None}
+    if contr == "SAS":
+        return {"k": "SAS", "base": None}
+    if contr == "sum":
+        return {"k": "sum"}
+    if contr == "helmert":
+        return {"k": "helmert", "reverse": True, "scale": False}
+    if contr == "diff":
+        return {"k": "diff", "backward": True}
+    if contr == "poly":
+        return {"k": "poly", "scores": None}
+    if contr.startswith("treatment(base="):
+        return {"k": "treatment", "base": {"s": "nosuch"}}
+    if contr.startswith("SAS(base="):
+        return {"k": "SAS", "base": {"s": "nosuch"}}
+    if contr.startswith("poly(scores="):
+        return {"k": "poly", "scores": ["1", "2", "3", "4", "5", "6"]}
+    raise ValueError(contr)
+
+
+def expected_terms(c):
+    return [["1"] if not t else [atom_of(c, a) for a in t] for t in c["terms"]]
+
+
+def design_request(c):
+    columns = []
+    factors = []
+    for i, cat in enumerate(c["cats"]):
+        columns.append({"cat": True, "levels": [label_json(v) for v in cat_levels(cat)],
+                        "declared": not (len(cat) > 4 and not cat[4])})
+        e = atom(cat[0], cat[2])
+        if cat[2] is None:
+            factors.append({"t": "column", "expr": e, "col": i})
+        else:
+            factors.append({"t": "wrapped", "expr": e, "col": i, "contrast": contrast_json(cat[2])})
+    for j, v in enumerate(c["nums"]):
+        columns.append({"cat": False, "values": [str(x) for x in NUMVALS[j]]})
+        factors.append({"t": "column", "expr": v, "col": len(c["cats"]) + j})
+    used = {a for t in c["terms"] for a in t}
+    for lit in LITS:
+        if lit in used:
+            factors.append({"t": "literal", "expr": lit, "value": base.fstr(Fraction(lit))})
+    if any(not t for t in c["terms"]):
+        factors.append({"t": "literal", "expr": "1", "value": "1"})
+    if NULL in used:
+        factors.append({"t": "null", "expr": NULL})
+    return dict(op="crossed", columns=columns, factors=factors, terms=expected_terms(c), efr=True,
+                cluster=c["cluster"], asdict=base.as_dict(c), sparse=c["output"] == "sparse")
+
+
 def request(c, o):
-    if "error" in o or "harness_exception" in o:
+    k = c["kind"]
+    if "harness_exception" in o:
         return dict(op="noop")
-    cc = dict(c, data={"nrows": min(KEEP, o["nrows"])}, efr=True)
-    return base.matrix_request(cc, o)
+    if k == "structure":
+        if "error" in o:
+            return dict(op="noop")
+        cc = dict(c, data={"nrows": min(KEEP, o["nrows"])}, efr=True)
+        return base.matrix_request(cc, o)
+    if k in ("crossed", "badcontrast"):
+        return design_request(c)
+    if k == "spanned":
+        def fj(f):
+            enc = {"dict": False, "cols": [[base.field_json(""), []]], "spans": False, "drop": None, "rmeta": False,
+                   "fmt": [], "fmtr": None}
+            d = {"expr": f["expr"], "present": True, "kind": f["kind"], "spans": bool(f.get("spans", False)),
+                 "full": enc, "reduced": enc}
+            if f["kind"] == "constant":
+                d["value"] = base.fstr(Fraction(f["expr"]))
+            return d
+        return dict(op="spanned", factors=[fj(f) for f in c["factors"]])
+    if k == "simplify":
+        return dict(op="simplify", sts=c["sts"])
+    if k == "algebra":
+        return dict(op="algebra", a=c["a"], b=c["b"], xs=c["xs"], fs=c["fs"], set=c["set"], x=c["x"])
+    raise ValueError(k)
+
+
+# ----------------------------------------------------------------------------- agree
+
+
+def _inexact(c):
+    return any(str(cat[2]).startswith(INEXACT_CONTR) for cat in c["cats"])
+
+
+def _may_collide(c, o):
+    """can two columns of this case print to the same name? (numeric columns named from the collision pool, a
+    repeated label among the recorded names, or level labels that print alike)"""
+    if any(v not in ("x", "y") for v in c["nums"]) or o.get("repeated_labels"):
+        return True
+    names = [str(x) for s in o.get("structure", []) for x in s["columns"]]
+    return len(set(names)) != len(names)
+
+
+def agree_crossed(c, o, m):
+    if "error" in o:
+        return None  # reported by the oracle
+    if "error" in m:
+        return f"model raised {m['error']}, implementation did not"
+    # the model certifies the hypotheses of Props.C03.certified_design_full_rank_same_span for this very case, unless
+    # two columns of the case may print to the same name (what the theorem excludes and known finding C03-F1 is about)
+    excused = _may_collide(c, o) or c["kind"] == "badcontrast"  # (a contrast that cannot be built)
+    if not m.get("certified") and not excused:
+        return "the model could not certify the hypotheses of certified_design_full_rank_same_span for this case"
+    if o["terms"] != expected_terms(c):
+        return f"parsed terms {o['terms']} differ from the written ones {expected_terms(c)}"
+    if m["nrows"] != o["nrows"]:
+        return f"model frame has {m['nrows']} rows, the data {o['nrows']}"
+    ms = [dict(term=s["term"], scoped=s["scoped"], columns=s["columns"]) for s in m["structure"]]
+    if ms != o["structure"]:
+        for a, b in zip(ms, o["structure"]):
+            if a != b:
+                return f"structure differs for term {b['term']}: model {a} vs impl {b}"
+        return "structure differs in length"
+    if "shape_mismatch" in o:
+        return "matrix shape and names disagree: " + o["shape_mismatch"]
+    mn = [e["name"] for e in m["columns"]]
+    on = [e["name"] for e in o["columns"]]
+    if mn != on:
+        return f"column names differ: model {mn} vs impl {on}"
+    inexact = _inexact(c)
+    for a, b in zip(m["columns"], o["columns"]):
+        if len(a["values"]) != len(b["values"]):
+            return f"column {b['name']}: length {len(a['values'])} vs {len(b['values'])}"
+        norm = Fraction(a["norm2"])
+        for i, (x, y) in enumerate(zip(a["values"], b["values"])):
+            if not inexact:
+                if Fraction(x) != Fraction(y):
+                    return f"column {b['name']} row {i}: model {x} vs impl {y}"
+            else:
+                xv = float(Fraction(x)) / float(norm) ** 0.5
+                yv = float(Fraction(y))
+                if abs(xv - yv) > 1e-9 * (1 + abs(yv)):
+                    return f"column {b['name']} row {i}: model {xv} (= {x} / sqrt({norm})) vs impl {yv}"
+    return None
 
 
 def agree(c, o, m):
     if "driver_error" in m:
         return "driver: " + m["driver_error"][:300]
-    if "error" in o or "harness_exception" in o:
+    if "harness_exception" in o:
         return None
-    cc = dict(c, formula=formula_of(c))
-    return base.agree_matrix(cc, o, m)
+    k = c["kind"]
+    if k == "structure":
+        if "error" in o:
+            return None
+        cc = dict(c, formula=formula_of(c))
+        return base.agree_matrix(cc, o, m)
+    if k == "crossed":
+        return agree_crossed(c, o, m)
+    if k == "badcontrast":
+        if ("error" in o) == ("error" in m):  # encodings are lazy: a contrast that is never needed never raises
+            return None if "error" in o else agree_crossed(c, o, m)
+        return f"unbuildable contrast: impl {o.get('error', 'no error')} vs model {m.get('error', 'no error')}"
+    if k in ("spanned", "simplify"):
+        if "error" in o or "error" in m:
+            return None if o.get("error") == m.get("error") else f"impl {o.get('error')} vs model {m.get('error')}"
+        return None if o["sts"] == m["sts"] else f"scoped terms differ: model {m['sts']} vs impl {o['sts']}"
+    if k == "algebra":
+        same_factor = c["a"]["t"] == "sf" and c["b"]["t"] == "sf" and c["a"]["expr"] == c["b"]["expr"]
+        for key in ("eq", "lt", "sorted", "dedup", "member"):
+            a, b = o[key], m[key]
+            if key == "dedup":
+                b = [list(x) for x in b]
+            if key == "lt" and same_factor:
+                continue  # which of `A` and `A-` sorts first is immaterial (the oracle asks for a strict order)
+            if key == "sorted" and isinstance(a, list) and isinstance(b, list):
+                # compared up to the relative order of the two codings of one factor
+                a = sorted(a, key=lambda x: (x.get("expr", ""), x.get("reduced", False)))
+                b = sorted(b, key=lambda x: (x.get("expr", ""), x.get("reduced", False)))
+            if a != b:
+                return f"{key}: impl {a} vs model {b}"
+        if o["eq_sym"] != m["eq"]:
+            return f"b == a is {o['eq_sym']}, model {m['eq']}"
+        if o["member_set"] != m["member"]:
+            return f"x in set(...) is {o['member_set']}, model {m['member']}"
+        if m["samehash"] and o["samehash"] is False:
+            return "model: both hashes are a function of the same key; impl: hashes differ"
+        return None
+    return None
+
+
+# ----------------------------------------------------------------------------- oracle
 
 
 def oracle(c, o):
     if "harness_exception" in o:
         return "harness could not run the implementation: " + o["harness_exception"]
+    k = c["kind"]
+    if k == "badcontrast":
+        return None
+    if k in ("spanned", "simplify", "algebra"):
+        if k != "algebra" and "error" in o:
+            return f"{k} raised {o['error']}"
+        if k == "algebra" and c["a"]["t"] == "sf" and c["b"]["t"] == "sf":
+            # `sorted(factors)` is the canonical form behind ScopedTerm equality and hashing: `<` must order any two
+            # different scoped factors strictly, and must not order a factor before itself
+            if o["eq"] and (o["lt"] is True or o["gt"] is True):
+                return f"{c['a']} == {c['b']} and yet one sorts before the other"
+            if not o["eq"] and not ((o["lt"] is True) ^ (o["gt"] is True)):
+                return f"`<` does not order the different scoped factors {c['a']}, {c['b']}: a<b is {o['lt']}, b<a is {o['gt']}"
+        return o.get("hash_ok")
     if "error" in o:
         return f"materialisation raised {o['error']}: {o.get('msg', '')}"
+    return rank_oracle(o)
+
+
+def rank_oracle(o):
     ncr, ncf = o["ncols"]
     if o["rank_reduced"] != ncr:
         return f"reduced matrix has {ncr} columns {[e['name'] for e in o['columns']]} but rank {o['rank_reduced']} on the fully crossed design"
@@ -274,22 +941,45 @@ def oracle(c, o):
 
 
 def classify(c, o, why):
-    return None
+    """C03-F1 for exactly: narwhals materializer, output assembled through a {name: column} dict, a label occurs twice
+    among the recorded column names (reduced or unreduced matrix), the SAME matrices assembled by position (sparse
+    output of the same materializer) satisfy the property, and the model (which mirrors the dict) agrees with the
+    implementation."""
+    try:
+        if c.get("kind") not in ("structure", "crossed") or not isinstance(o, dict) or "error" in o:
+            return None
+        if not base.as_dict(c) or not o.get("repeated_labels") or "stacked" not in o:
+            return None
+        if not why.startswith(("reduced matrix has", "column spaces differ")):
+            return None
+        if rank_oracle(dict(o["stacked"], columns=[])) is not None:
+            return None
+        return "C03-F1"
+    except Exception:
+        return None
 
 
 LEVEL_TEXT = (
-    "Proof: Lean theorems (Props/C03.lean) about the executable model of _get_scoped_terms / "
-    "_get_scoped_terms_spanned_by_evaled_factors / _simplify_scoped_terms show for ALL term lists, orders and clusterings "
-    "that the greedy recombination terminates and preserves the multiset of structural components, that no structural "
-    "component is emitted twice (structural full rank) and that the emitted components are exactly the de-duplicated "
-    "components of the unreduced matrix (unchanged span). The model is tied to the code by a differential correspondence "
-    "on model_spec.structure on every run. The bridge to linear algebra is proved as well (Mathlib): one factor's full "
-    "coding spans 1 + reduced coding; a scoped term with full-coded factors spans the sum of its components on a fully "
-    "crossed design; hence the emitted structure's columns are linearly independent and span what the unreduced "
-    "structure spans (reduced_matrix_full_rank_same_span). Only the identification of those structure columns with the "
-    "concrete matrix columns is left to C02's column_is_product plus the numeric rank oracle (matrix_rank) on every case."
+    "Proof: Lean theorems (Props/C03.lean, 23) about the executable model of _get_scoped_terms / "
+    "_get_scoped_terms_spanned_by_evaled_factors / _simplify_scoped_terms / _build_model_matrix show for ALL term lists, "
+    "orders and clusterings that the greedy recombination terminates and preserves the multiset of structural components, "
+    "that no component is emitted twice and that the emitted components are those of the unreduced matrix - whatever the "
+    "order or clustering of the terms (components_order_invariant). The property itself is proved for the List-Rat columns "
+    "of the matrix the model emits: for EVERY well-formed design description (any number of categorical / numeric columns, "
+    "any level counts, every built-in contrast with valid options via C11, bare columns, literal scalings, names bound to "
+    "None), every term list, either clustering, without printed-name collisions, the columns built with rank reduction on "
+    "are linearly independent and span the space of the columns built with it off (crossed_model_full_rank_same_span; "
+    "general form for any cache holding a crossed design: matrix_full_rank_same_span), and that space does not depend on "
+    "term order or clustering (matrix_span_order_invariant). The model is tied to the code on every run by a differential "
+    "correspondence in which the model computes the WHOLE matrix of a fully crossed design from the design description "
+    "alone (factor encodings through the model of contrasts.py) and certifies, case by case, that the hypotheses of the "
+    "property theorem hold; plus direct calls of the three methods and of ScopedFactor/ScopedTerm comparison, hashing and "
+    "sorting. Known finding C03-F1 (narwhals name-keyed assembly drops a column whose label repeats) is reported as "
+    "KNOWN-FINDING on every run; former finding C03-F2 (a level label beginning with `__` lost its column) is repaired in "
+    "the library and such labels are part of every stream."
 )
 LEVEL_NOTE = (
-    "Trusted: Lean kernel + propext/Classical.choice/Quot.sound; the hand model of base.py validated by correspondence; "
-    "the tensor-rank bridge is covered by the numeric oracle only; contrast matrices are C11's claim."
+    "Trusted: Lean kernel + propext/Classical.choice/Quot.sound; the hand models of base.py / contrasts.py validated by "
+    "whole-matrix correspondence; parser, pandas category inference, str(label), sqrt/float rounding are parameters; the "
+    "per-case `certified` verdict is computed by compiled Lean (the theorem it feeds is kernel-checked)."
 )
